@@ -1,7 +1,8 @@
 SPECIFICATION Spec
 CONSTANTS
-  MaxU = 8
+  MaxU = 9
   Variant = "repaired"
   Measures = {"JACCARD", "COSINE", "DICE", "OVERLAP"}
-INVARIANT SuffixSafe
+INVARIANT Safe
+INVARIANT Tight
 CHECK_DEADLOCK FALSE
